@@ -9,6 +9,8 @@ pub mod cmp_engine;
 #[cfg(feature = "cb-std")]
 pub mod deq;
 #[cfg(feature = "cb-std")]
+pub mod fuzz_decode;
+#[cfg(feature = "cb-std")]
 pub mod gen_enum;
 #[cfg(feature = "cb-std")]
 pub mod gen_prop;
@@ -24,6 +26,8 @@ mod interp_views;
 pub mod io_engine;
 #[cfg(feature = "cb-std")]
 pub mod model;
+#[cfg(feature = "cb-std")]
+pub mod plain_engine;
 #[cfg(feature = "cb-std")]
 pub mod props;
 #[cfg(feature = "cb-std")]
